@@ -15,6 +15,7 @@ CONSTANTS MinClasses,
                         \* names + pops + helper functions + methods)
           MaxChain,     \* depth of the function chains that are components themselves
           FnOwn,        \* named parameters per function of such a chain
+          BFn,          \* bound on the total weight (named parameters + hard-coded names + pops) of such a chain
           EmitAllUpTo,  \* print every complete program with at most this many classes ...
           Sel,          \* ... and one in Sel of the larger ones (chosen by a hash of the program and the seed)
           KeepGoing     \* TRUE: a failing clause is printed (<<"FAIL", clause, program>>) and the run goes on to find them all
@@ -119,6 +120,7 @@ FnDescs(j) ==
   \cup (IF j >= MaxChain THEN {} ELSE
        {[own |-> own, kw |-> TRUE, k |-> "next", hard |-> hard, q |-> q, qop |-> "pop"] :
           own \in SmallSets(FnOwn), hard \in SmallSets(MaxHard), q \in SmallSets(IF MaxPop > 0 THEN 1 ELSE 0)})
+FnWeight(d) == Cardinality(d.own) + Cardinality(d.hard) + Cardinality(d.q)
 FnSane(d) == ~(d.qop = "get" /\ d.q = {})
 FnBuild(j, d) == Sig(j, d.own, d.kw, Fw(d.k, 0, d.hard, d.q, d.qop, << >>))
 FnCode(d) == Mask(d.own) + 16 * Mask(d.hard) + 256 * Mask(d.q) + (IF d.kw THEN 4096 ELSE 0) + (IF d.k = "next" THEN 8192 ELSE 0) + (IF d.qop = "get" THEN 16384 ELSE 0)
@@ -157,10 +159,10 @@ AddClass ==
 AddFn ==
   /\ ~IsClassProg /\ (IF Len(fn) = 0 THEN TRUE ELSE (fn[Len(fn)].kw /\ fn[Len(fn)].fw.k = "next"))
   /\ LET j == Len(fn) + 1 IN
-     \E d \in {x \in FnDescs(j) : FnSane(x)} :
+     \E d \in {x \in FnDescs(j) : FnSane(x) /\ w + FnWeight(x) <= BFn} :
           /\ fn' = Append(fn, FnBuild(j, d))
           /\ h' = (h * 31 + FnCode(d)) % 65521
-          /\ w' = w
+          /\ w' = w + FnWeight(d)
   /\ UNCHANGED <<shape, cls>>
 
 Next == AddClass \/ AddFn
